@@ -2,10 +2,11 @@
    interpreter instantiated with Flocq arithmetic, the binary writer and reader. *)
 Require Import ExtrOcamlBasic.
 From Coq Require Import ZArith List.
-From Covfie Require Import Stack FloatOps BinIO BinIOProofs BinIOFlip StackGlue.
+From Covfie Require Import Stack FloatOps BinIO BinIOProofs BinIOFlip StackGlue Convert.
 Import ListNotations.
 
 Definition m_eval (s : stack) (f : fld) (c : list Z) : option (list Z * list Z) := eval flocq_ops s f c.
 Definition m_load (s : stack) (bs : list Z) : result (fld * list Z) := load flocq_ops s bs.
+Definition m_write (s : stack) (f : fld) (c v : list Z) : option fld := write flocq_ops s f c v.
 Definition keep_number_types (z : Z) (n : N) (k : nat) := (z, n, k).
-Separate Extraction kind_of m_eval dump m_load parse_fld fld_cfg_groups fld_storage keep_number_types dump_segs seg_bytes wf_fld.
+Separate Extraction kind_of m_eval dump m_load parse_fld fld_cfg_groups fld_storage keep_number_types dump_segs seg_bytes wf_fld convert m_write.
